@@ -60,10 +60,19 @@ func qNewEnv() (*qEnv, error) {
 		os.RemoveAll(root)
 		return nil, err
 	}
-	arc, err := database.New(&database.Config{MemoryLimit: "1GB", ThreadCount: 2, MaxConnections: 4, LocalStorageRoot: root}, logger)
-	if err != nil {
-		os.RemoveAll(root)
-		return nil, err
+	// database.New bounds its sandbox lock-down with a 5 s context; on a heavily
+	// shared machine that can expire ("Interrupted"). That is start-up plumbing,
+	// not the property: retry instead of failing the case.
+	var arc *database.DuckDB
+	for attempt := 0; ; attempt++ {
+		arc, err = database.New(&database.Config{MemoryLimit: "1GB", ThreadCount: 2, MaxConnections: 4, LocalStorageRoot: root}, logger)
+		if err == nil {
+			break
+		}
+		if attempt >= 7 {
+			os.RemoveAll(root)
+			return nil, err
+		}
 	}
 	ref, err := duck.Open()
 	if err != nil {
